@@ -256,6 +256,25 @@ def run(ctx):
     ctx.check(good and not wrong, rule3, f"{rule3}:from-redacted-content", w.where(f),
               bad_msg=f"RoomPowerLevels::from(RedactedRoomPowerLevelsEventContent) is not a field-by-field copy: {wrong or [D.show(p.ret)[:200] for p in ps]} - the helpers then "
                       f"judge a redacted power-levels event (v11 keeps `invite`) by other levels than the authorization rules")
+    # the typed redaction of the content (what a client computes locally) agrees with the redaction algorithm the authorization rules see: every level
+    # is kept, except `invite`, which is kept from room version 11 on and reads as its default 0 before
+    kr = [k_ for k_ in w.fn_index if k_.startswith(f"<{P}RoomPowerLevelsEventContent as ") and k_.endswith("RedactContent>::redact")]
+    if len(kr) != 1:
+        ctx.missing(rule3, f"{rule3}:redact", "RedactContent::redact for RoomPowerLevelsEventContent not found")
+    else:
+        fr = w.fn(kr[0])
+        rp = D.Dex(w.lookup, adt_discr=w.adt_discr, inline=lambda n: "{closure" in n, ctors=w.ctors).paths(fr, [D.sym("self"), D.sym("rules")])
+        got_r = {}
+        for p in rp:
+            keep = [t for a, t in p.conds if D.show_atom(a) == "rules.keep_room_power_levels_invite"]
+            if p.kind == "ret" and p.ret is not None and p.ret[0] == "adt" and len(keep) == 1:
+                got_r[keep[0]] = {k_: D.show(v_) for k_, v_ in p.ret[3]}
+        want_keep = {k_: f"self.{k_}" for k_ in ("ban", "events", "events_default", "invite", "kick", "redact", "state_default", "users", "users_default")}
+        want_drop = dict(want_keep, invite="0")
+        ctx.check(got_r == {True: want_keep, False: want_drop}, rule3, f"{rule3}:redact", w.where(fr),
+                  bad_msg=f"RoomPowerLevelsEventContent::redact gives { {k_: {f_: v_ for f_, v_ in d_.items() if v_ != want_keep[f_]} for k_, d_ in got_r.items()} } (by keep_room_power_levels_invite): "
+                          f"the redaction algorithm drops `invite` before room version 11, which the authorization rules then read as 0 - any other value makes the helpers on "
+                          f"the typed redacted content disagree with them")
     f = w.fn("ruma_common::power_levels::NotificationPowerLevels::new")
     ps = dex.paths(f, [])
     good = len(ps) == 1 and ps[0].ret is not None and ps[0].ret[0] == "adt" and D.show(dict(ps[0].ret[3])["room"]) == "power_levels::default_power_level()"
